@@ -5,6 +5,8 @@ def stages(tier):
     return [
         {"name": "faults", "cmd": "reval", "args": ["-prop", "C09"], "check": "Check.Proxy.check_reval_c09",
          "timeout": 300, "timeout_thorough": 1800, "search_budget": 60},
+        {"name": "unremovable", "cmd": "relayx", "args": ["-prop", "C09x"], "check": "eviction victims that cannot be removed from the cache directory: every request to a healthy origin is still answered promptly (direct)",
+         "timeout": 300, "timeout_thorough": 600},
     ]
 
 
